@@ -8,6 +8,7 @@ records real executions and has TLC validate them (binding B), and reports throu
 import hashlib
 import json
 import os
+import random
 import re
 import shutil
 import subprocess
@@ -151,6 +152,29 @@ def run_tlc(module, cfg_text, *, workers=None, simulate=None, depth=None, seed=N
         return res
     finally:
         shutil.rmtree(tmp, ignore_errors=True)
+
+
+def covering_sample(behs, fields, limit, seed):
+    """A sample of at most `limit` behaviours that covers every pair of (field, value) combinations occurring in
+    `behs` (greedy pass over a seeded shuffle: a behaviour is kept if it shows a pair not seen yet), filled up with a
+    seeded random choice of the rest.  `fields(beh)` returns a flat dict of hashable descriptor values.  A uniform
+    sample of 0.5 % would see a rare combination of two descriptor values only by luck."""
+    import itertools
+    rng = random.Random(seed)
+    order = list(range(len(behs)))
+    rng.shuffle(order)
+    seen = set()
+    keep, rest = [], []
+    for i in order:
+        items = sorted((k, json.dumps(v, sort_keys=True, default=str)) for k, v in fields(behs[i]).items())
+        new = [pr for pr in itertools.combinations(items, 2) if pr not in seen]
+        if new and len(keep) < limit:
+            seen.update(new)
+            keep.append(i)
+        else:
+            rest.append(i)
+    fill = rest[:max(0, limit - len(keep))]
+    return [behs[i] for i in sorted(keep + fill)]
 
 
 def counterexample(out):
